@@ -105,7 +105,9 @@ class Charset:
         """what typing the printable character ch inserts"""
         if not self.is_bytes:
             return ch
-        return ch.encode(self.codec)
+        # bytes text is in the active encoding; a character that encoding lacks goes in as the codec's
+        # replacement ('?'), the convention urwid documents for text it cannot encode
+        return ch.encode(self.codec, "replace")
 
     def lit(self, s: str):
         return s.encode("ascii") if self.is_bytes else s
